@@ -675,6 +675,7 @@ func (pc *PkgContracts) generate(locals map[string]localInfo) (string, error) {
 	}
 	body.WriteString(`
 func old[T any](x T) T { return x }
+func allrefs[T any](f func(p *T) bool) bool { return true }
 func forall(lo, hi int, f func(i int) bool) bool {
 	for i := lo; i < hi; i++ {
 		if !f(i) {
